@@ -1205,6 +1205,9 @@ type obs struct {
 	GoVer   string `json:"gover,omitempty"` // run's Go version ("" = unset)
 	Nil     int    `json:"nil"`             // the fact about "no expression / invalid type" (0 no, 1 yes, 2 either)
 	Node    int    `json:"node"`            // node-level predicates: the closure's answer for this non-expression capture; -1 n/a
+	// Detached: the verdict on a copy of the file that exists in memory only (nothing is saved at its path); absent for the
+	// predicates that read the capture's text where the engine's rendering of the capture is not the source spelling
+	Detached *bool `json:"detached,omitempty"`
 }
 
 type ruleOut struct {
@@ -1237,6 +1240,12 @@ func main() {
 	flag.Parse()
 	enc := json.NewEncoder(os.Stdout)
 	t, err := hutil.CheckTarget(*tmp, "target/target.go", []byte(targetSource()))
+	if err != nil {
+		fmt.Fprintln(os.Stderr, err)
+		os.Exit(3)
+	}
+	// the same source under the same file name in a directory where it was never saved (byte offsets coincide)
+	tm, err := filt.CheckDetachedTarget(filepath.Join(*tmp, "detached", "target.go"), []byte(targetSource()), nil)
 	if err != nil {
 		fmt.Fprintln(os.Stderr, err)
 		os.Exit(3)
@@ -1357,6 +1366,26 @@ func main() {
 		}
 	}
 
+	// where the engine's own rendering of a capture of the in-memory copy (`$x` in a message) is its source spelling
+	textSame := map[int]bool{}
+	{
+		eng, lerr := filt.Load(t.Fset, filt.RulesFile("", []filt.Rule{{Name: "txt", Pattern: "p0($x)", Report: "$x"}}))
+		if lerr != nil {
+			fmt.Fprintln(os.Stderr, "text probe:", lerr)
+			os.Exit(3)
+		}
+		reports, pmsg := hutil.Run(eng, tm, 0, "", nil)
+		if pmsg != "" {
+			fmt.Fprintln(os.Stderr, "text probe:", pmsg)
+			os.Exit(3)
+		}
+		for _, rep := range reports {
+			if ji, ok := posToP[rep.Pos]; ok && ji[0] == 0 && len(pcalls[0][ji[1]].call.Args) == 1 {
+				textSame[ji[1]] = rep.Message == filt.Text(t, pcalls[0][ji[1]].call.Args[0])
+			}
+		}
+	}
+
 	// ---- rules
 	all := preds(e)
 	var rules []*rule
@@ -1425,27 +1454,50 @@ func main() {
 			}
 			return
 		}
-		acc := map[*rule]map[int]bool{}
-		for _, rep := range reports {
-			r := byName[rep.Group]
-			var ji [2]int
-			var ok bool
-			switch r.kind {
-			case "stmt":
-				ji, ok = posToQ[rep.Pos]
-			case "root":
-				ji, ok = posToR[rep.Pos]
-			default:
-				ji, ok = posToP[rep.Pos]
+		reportsM, pmsgM := hutil.Run(eng, tm, 0, gover, nil)
+		if pmsgM != "" {
+			if len(batch) == 1 {
+				batch[0].out.Panic = "on a copy of the file that exists in memory only: " + pmsgM
+				return
 			}
-			if !ok || ji[0] != r.j {
-				fmt.Fprintf(os.Stderr, "report cannot be attributed: %+v\n", rep)
-				os.Exit(3)
+			for _, r := range batch {
+				runBatchOne(r, gover)
 			}
-			if acc[r] == nil {
-				acc[r] = map[int]bool{}
+			return
+		}
+		attribute := func(reports []hutil.Report) map[*rule]map[int]bool {
+			acc := map[*rule]map[int]bool{}
+			for _, rep := range reports {
+				r := byName[rep.Group]
+				var ji [2]int
+				var ok bool
+				switch r.kind {
+				case "stmt":
+					ji, ok = posToQ[rep.Pos]
+				case "root":
+					ji, ok = posToR[rep.Pos]
+				default:
+					ji, ok = posToP[rep.Pos]
+				}
+				if !ok || ji[0] != r.j {
+					fmt.Fprintf(os.Stderr, "report cannot be attributed: %+v\n", rep)
+					os.Exit(3)
+				}
+				if acc[r] == nil {
+					acc[r] = map[int]bool{}
+				}
+				acc[r][ji[1]] = true
 			}
-			acc[r][ji[1]] = true
+			return acc
+		}
+		acc, accM := attribute(reports), attribute(reportsM)
+		// detached: the verdict on the in-memory copy, where it has to equal the one on the saved file
+		detached := func(r *rule, i int) *bool {
+			if strings.HasPrefix(r.p.name, "Text") && !((r.kind == "single" || r.kind == "file") && textSame[i]) {
+				return nil
+			}
+			v := accM[r][i]
+			return &v
 		}
 		for _, r := range batch {
 			p := r.p
@@ -1453,7 +1505,7 @@ func main() {
 			case "single", "list", "pair", "file", "first", "second", "tail":
 				for i, ps := range pcalls[r.j] {
 					args := ps.call.Args
-					o := obs{Site: filt.Text(t, ps.call)[strings.Index(filt.Text(t, ps.call), "("):], Verdict: acc[r][i], Dead: ps.dead, GoVer: gover, Facts: []int{}, Node: -1}
+					o := obs{Site: filt.Text(t, ps.call)[strings.Index(filt.Text(t, ps.call), "("):], Verdict: acc[r][i], Dead: ps.dead, GoVer: gover, Facts: []int{}, Node: -1, Detached: detached(r, i)}
 					if p.nilT != nil {
 						o.Nil = int(safe(func() tri { return p.nilT(e) }))
 					}
@@ -1524,7 +1576,7 @@ func main() {
 			case "stmt":
 				for i, is := range qifs[r.j] {
 					st := is.Body.List[0]
-					o := obs{Site: filt.Text(t, st), Verdict: acc[r][i], GoVer: gover, Facts: []int{}, Node: -1}
+					o := obs{Site: filt.Text(t, st), Verdict: acc[r][i], GoVer: gover, Facts: []int{}, Node: -1, Detached: detached(r, i)}
 					if p.nilT != nil {
 						o.Nil = int(safe(func() tri { return p.nilT(e) }))
 					}
@@ -1545,7 +1597,7 @@ func main() {
 					if s.ctx != nil {
 						ctx = s.ctx.stmt
 					}
-					o := obs{Site: ctx + " /" + s.par + "/" + s.sink, Shape: "root", Verdict: acc[r][i], GoVer: gover, Facts: []int{int(p.factR(e, s))}, Node: -1}
+					o := obs{Site: ctx + " /" + s.par + "/" + s.sink, Shape: "root", Verdict: acc[r][i], GoVer: gover, Facts: []int{int(p.factR(e, s))}, Node: -1, Detached: detached(r, i)}
 					r.out.Obs = append(r.out.Obs, o)
 				}
 			}
